@@ -1,6 +1,7 @@
 import GormModel.Drv.Util
 import GormModel.Model.SchemaCache
 import GormModel.Model.WhereSwap
+import GormModel.Model.SharedCell
 open Lean
 namespace Gorm.Drv
 open Gorm.SchemaCache
@@ -85,7 +86,7 @@ def parseItem (j : Json) : Option WhereSwap.Item :=
 end HC07
 
 open HC07 in
-/-- ["sc.sched", cfg, progs, sched] ; ["where.swap", [items]] (item = "or1" | "other" | [inner kinds] for an And group) -/
+/-- ["sc.sched", cfg, progs, sched] ; ["cell.sched", sched] ; ["where.swap", [items]] (item = "or1" | "other" | [inner kinds] for an And group) -/
 def handleC07 (op : String) (args : Array Json) : Option Json := do
   match op with
   | "sc.sched" =>
@@ -124,6 +125,15 @@ def handleC07 (op : String) (args : Array Json) : Option Json := do
     let idxs := List.range ks.length
     let perm := WhereSwap.after (fun i => ks.getD i .other) idxs
     some (Json.mkObj [("inner", Json.bool inner), ("perm", natListJ perm), ("writes", natListJ (WhereSwap.writes ks))])
+  | "cell.sched" =>
+    -- ["cell.sched", sched]: the save/replace/restore protocol of DB.Scan under a schedule, in the mode the regenerated
+    -- fact says the tree uses; `cell` = 0 (handle's own logger) or t+1 (recorder of goroutine t)
+    let sched ← parseNatList (arg args 1)
+    let s := SharedCell.run scanSwapsInPlace SharedCell.init sched
+    let seen := sched.foldl (fun (acc : SharedCell.St × List Nat) t =>
+      let s' := SharedCell.step scanSwapsInPlace acc.1 t
+      (s', acc.2 ++ [s'.cell])) (SharedCell.init, [])
+    some (Json.mkObj [("in_place", Json.bool scanSwapsInPlace), ("cell", natJ s.cell), ("cells", natListJ seen.2)])
   | _ => none
 
 end Gorm.Drv
